@@ -28,6 +28,16 @@ CHECKS = {
          "Exploration: as C08 for AtomicWeak, with expected WeakSnapshots from all three sources named in the property."),
  "C10": ("model-based PBT of bulk constructors with generated release orders (count conservation, O-own, O-leak)", "6/C10",
          "Exploration: sequential programs over new_many/new_many_iter/weak_many; pointers must refer to the receiver, counts equal owners after every op, object destructed only after the last owner and reclaimed at quiescence."),
+ "C06": ("metamorphic latency bound over generated structures (PBT, sequential)", "6/C06",
+         "Exploration: generated chains/trees/combs with generated stamp bands, ages, flush delays, epoch alignments and externally held nodes; the number of epoch advances until the last destructor must stay below a bound that grows with n/1024 only, and held sub-structures must survive intact."),
+ "C07": ("PBT over structure size/shape/stack size with crash detection in forked children", "6/C07",
+         "Exploration: structures of up to 300 000 (thorough 4 000 000) nodes reclaimed on threads with 8 MiB..512 KiB stacks; the child must exit normally and every node must be destructed."),
+ "C11": ("PBT + exhaustive sub-space enumeration of tagged-pointer arithmetic; API round-trips on real objects", "6/C11",
+         "Exploration: direct formulas for tag/as_raw/high_tag/ptr_eq/is_null/formatting over generated words at 7 alignments (one sub-space enumerated completely) and public-API round-trips on real objects written at different epochs."),
+ "C12": ("PBT + exhaustive enumeration of count-word and modular-epoch arithmetic; end-to-end decision observation", "6/C12",
+         "Exploration: field independence of every updater, safety/liveness window of the modular comparison for generated and enumerated (epoch, age) pairs, and the real cascade's immediate-vs-defer decision at generated true ages."),
+ "C19": ("PBT of Eq/Ord/Hash against Option<&T> of the referent plus algebraic laws", "6/C19",
+         "Exploration: generated pointer pools (null, tagged, re-stamped, equal-content distinct objects); every comparison and hash must equal the same operation on the referents, and the Eq/Ord/Hash laws must hold over all pairs and triples."),
 }
 
 NOT_YET = {
